@@ -1,6 +1,7 @@
 # edge?: fiber.ev_state.accept.function
 # the handler function of a listening server is owned by the pending accept state
 (def path (string "/tmp/c01-sock-" (os/getpid)))
+(if (os/stat path) (os/rm path))   # a run that crashed earlier under the same (recycled) pid may have left the socket behind
 (defn start []
   (net/server :unix path (let [greeting (array/concat @[] (range 3))] (fn [conn] (ev/write conn (string/format "%j" greeting)) (ev/close conn)))))
 (def srv (start))
